@@ -9,4 +9,5 @@ CONSTANTS
   TypesOnly = TRUE
   CallsOnly = FALSE
   Rich = TRUE
+  Inplace = TRUE
 CHECK_DEADLOCK FALSE
